@@ -1,27 +1,24 @@
 #!/bin/bash
-# usage: eval_seeded.sh <ID> <k>      (seed k of property ID, from /tmp/wt-<ID>/_seed/<k>)
-# 1. verifies the sub-agent's claims in its worktree, 2. copies the change to
-# /verif/seeded/<ID>-<k>/, 3. runs the property's quick check on a scratch copy
-# of /repo with the patch applied.  Prints one summary line.
-ID=$1; K=$2
-WT=/tmp/wt-$ID; SD=$WT/_seed/$K
+# usage: eval_seeded.sh <ID> <k> [srcdir]
+# Evaluates seeded change /verif/seeded/<ID>-<k> (imported from srcdir if given):
+# 1. verifies the sub-agent's claims in a scratch copy of /repo HEAD (demo passes
+#    on the clean tree, unit tests pass and demo fails with the patch),
+# 2. runs the property's quick check on a scratch copy with the patch applied.
+ID=$1; K=$2; SRC=$3
 DEST=/verif/seeded/$ID-$K
-[ -f $SD/patch.diff ] || { echo "$ID-$K: no patch"; exit 0; }
-cd $WT && git checkout -q -- . 2>/dev/null
-PASS0=$(cd $WT && timeout 300 /venv/bin/python $SD/demo.py >/dev/null 2>&1; echo $?)
-git apply $SD/patch.diff || { echo "$ID-$K: patch does not apply"; exit 0; }
-TESTS=$(cd $WT && /venv/bin/python -m pytest -q -p no:cacheprovider 2>&1 | tail -1)
-FAIL1=$(cd $WT && timeout 300 /venv/bin/python $SD/demo.py >/dev/null 2>&1; echo $?)
-git checkout -q -- .
-mkdir -p $DEST && cp $SD/patch.diff $SD/demo.py $SD/meta.json $DEST/
+if [ -n "$SRC" ]; then mkdir -p $DEST && cp $SRC/patch.diff $SRC/demo.py $SRC/meta.json $DEST/; fi
+[ -f $DEST/patch.diff ] || { echo "$ID-$K: no patch"; exit 0; }
 S=/tmp/verif-scratch-seed-$ID-$K
 /verif/selftest/mk_scratch.sh $S >/dev/null
-(cd $S && git apply $SD/patch.diff) || { echo "$ID-$K: patch does not apply to /repo HEAD"; rm -rf $S; exit 0; }
+PASS0=$(cd $S && timeout 300 /venv/bin/python $DEST/demo.py >/dev/null 2>&1; echo $?)
+(cd $S && git apply $DEST/patch.diff) || { echo "$ID-$K: patch does not apply to /repo HEAD"; rm -rf $S; exit 0; }
+TESTS=$(cd $S && /venv/bin/python -m pytest -q -p no:cacheprovider 2>&1 | tail -1)
+FAIL1=$(cd $S && timeout 300 /venv/bin/python $DEST/demo.py >/dev/null 2>&1; echo $?)
 OUT=$(cd /verif && VERIF_REPO=$S VERIF_EVIDENCE=$S/ev.json timeout 1500 ./vcheck $ID 2>&1)
 RC=$?
-NV=$(echo "$OUT" | grep -c "^VIOLATION")
-FIRST=$(echo "$OUT" | grep "^VIOLATION" | head -1)
-SUMMARY=$(echo "$OUT" | grep "^$ID \[" | tail -1)
+NV=$(echo "$OUT" | grep -ac "^VIOLATION")
+FIRST=$(echo "$OUT" | grep -a "^VIOLATION" | head -1)
+SUMMARY=$(echo "$OUT" | grep -a "^$ID \[" | tail -1)
 rm -rf $S
 echo "$ID-$K demo_clean=$PASS0 tests='$TESTS' demo_patched=$FAIL1 check_rc=$RC violations=$NV $FIRST"
 python3 - "$DEST" "$ID" "$K" "$PASS0" "$TESTS" "$FAIL1" "$RC" "$NV" "$SUMMARY" <<'PY'
